@@ -41,7 +41,8 @@ RULE = ("cases = fixed corpus + generated requests (1-4 objects over a small poo
         "symbols, extra symbols, partial links and re-links of real partial outputs, layouts with 1-3 memories, SECTION/SECTIONDATA/"
         "DEFINESYMBOL/ALIGN inputs, sections absent from the layout / from the objects, memory sizes need-1/need/need+1, ill-formed "
         "layouts, sections placed twice) + direct Image.data cases + negative-location probe of the real linker. distinct = distinct request; non-trivial = some output section merged from >=2 pieces, or a "
-        "layout placing >=2 sections, or an error outcome")
+        "layout placing >=2 sections, or an error outcome. Every request is additionally linked a second time from the same in-memory "
+        "objects (and under a shifted layout) and its input objects are compared field by field before/after")
 TRUSTED = [
     "hand model Model.Linker of ppci/binutils/linker.py + objectfile.py (functional update for in-place mutation, name lookup for dicts), tied by differential run through ppci.api.link on every check",
     "Spec.Link (which globals a request defines/references; abstract (alignment,size) placement defining `need`/`overfull`; well-formedness)",
@@ -813,6 +814,8 @@ def probe_negative(ctx, n):
             m["size"] = need + rng.choice([0, 0, 1, 50])
         repair_symbols(rng, c)
         impl, objs_, observed = run_impl(c)
+        for sig, what, detail in _ALIAS.pop(id(c), []):
+            ctx.fail(sig, what, c, **detail)
         ctx.count("eval_negative_probe")
         if impl[0] != "ok":
             ctx.fail("link:spurious-failure-negative-location:" + impl[1],
